@@ -206,6 +206,16 @@ Theorem C17_listing_getters_translated : forall s p v, analysis_path p = Ok v ->
              /\ get_string_def s p d = Ok (match lookup s (key_of_vec v) with Some i => ivalue i | None => d end)).
 Proof. exact ConfXlate.tr_listing_getters_equiv. Qed.
 
+(* elem.getElem walks the tree from the root child by child (translated; elements are abstract handles, findChild a
+   parameter); the model looks the whole path up in its flat store. On every store the parser produces the two agree,
+   because such a store holds all ancestors of each of its elements: *)
+Theorem C17_store_closed : forall bs t, parse bs = Ok t -> ConfXlate.closed t /\ ConfXlate.present t [root_name].
+Proof. exact ConfXlate.parse_store_closed. Qed.
+Theorem C17_getElem_translated : forall bs t v, parse bs = Ok t ->
+  tr_getElem (ConfXlate.find_in t) (Some [root_name]) v =
+  Some (match lookup t (key_of_vec v) with Some _ => (Some (key_of_vec v), false) | None => (None, true) end).
+Proof. exact ConfXlate.getElem_translated. Qed.
+
 (* ---- no panic -------------------------------------------------------------------------------- *)
 Theorem C17_no_panic_parse : forall bs n, parse bs <> Panic n.
 Proof. exact ConfProofs.parse_no_panic. Qed.
@@ -250,5 +260,7 @@ Print Assumptions C17_analysis_path_translated.
 Print Assumptions C17_getters_translated.
 Print Assumptions C17_elem_methods_translated.
 Print Assumptions C17_listing_getters_translated.
+Print Assumptions C17_store_closed.
+Print Assumptions C17_getElem_translated.
 Print Assumptions C17_no_panic_parse.
 Print Assumptions C17_no_panic_getters.
